@@ -8,6 +8,7 @@ exit 3  checker crash or engine disagreement (counter-model does not replay on t
 """
 import sys
 import os
+import re
 import json
 import time
 import hashlib
@@ -44,6 +45,32 @@ def _worker_init():
     if REPO_SRC not in sys.path:
         sys.path.insert(0, REPO_SRC)
     load_contracts()
+    keep_solvers_alive()
+
+
+_KEEP = []
+
+
+def keep_solvers_alive():
+    """pyboolector segfaults when a BoolectorNode is deallocated after its Boolector instance (cyclic garbage after a
+    SolveFailure is collected in arbitrary order).  Checks that drive the real solver keep every instance alive until the
+    worker exits (workers leave through os._exit) and switch the cyclic collector off."""
+    import gc
+    gc.disable()
+    try:
+        import vsc.model.randomizer as R
+    except Exception:
+        return
+    if getattr(R.Boolector, "_pyvc_keep", False):
+        return
+    orig = R.Boolector
+
+    def mk(*a, **k):
+        b = orig(*a, **k)
+        _KEEP.append(b)
+        return b
+    mk._pyvc_keep = True
+    R.Boolector = mk
 
 
 def _jsonable(x):
@@ -174,6 +201,7 @@ def check_property(prop, tier, seed, jobs=None, only=None, verbose=False):
     if REPO_SRC not in sys.path:
         sys.path.insert(0, REPO_SRC)
     reg = load_contracts()
+    keep_solvers_alive()
     mine = [c for c in reg.values() if prop in c.props and (only is None or fnmatch.fnmatch(c.name, only))]
     if not mine:
         print("no contract carries property %s" % prop)
@@ -252,6 +280,9 @@ def check_property(prop, tier, seed, jobs=None, only=None, verbose=False):
         for ob in r["obls"]:
             if ob["verdict"] == "cover":
                 continue
+            mprop = re.match(r"(C\d\d+):", ob["name"])
+            if mprop and mprop.group(1) != prop:
+                continue        # an obligation named "Cxx: ..." belongs to that property only
             pc["obligations"] += 1
             if c.kind == "proof":
                 n_obl += 1
